@@ -136,39 +136,82 @@ def read_tables(path):
             'sha': hashlib.sha256(src.encode('utf-8')).hexdigest(), 'base_shape_ok': base_shape_ok}
 
 
-def pairs(d):
-    return '[' + ',\n    '.join('(%s, %s)' % (lean_str(k), lean_str(v)) for k, v in d.items()) + ']'
+def cp(s):
+    return '[' + ', '.join(str(ord(c)) for c in s) + ']'
+
+
+def comment(s):
+    # a one-line rendering of a table string for the reader; `-/` and line breaks cannot end the comment line
+    return ''.join(ch if 32 <= ord(ch) < 127 else '\\u{%x}' % ord(ch) for ch in s)
+
+
+def macro_pairs(d, indent):
+    if not d:
+        return '[]'
+    rows = []
+    for k, v in d.items():
+        rows.append('%s-- %s : %s\n%s(%s, %s)' % (indent, comment(k), comment(v), indent, cp(k), cp(v)))
+    return '[\n' + ',\n'.join(rows) + ']'
+
+
+def prop_pairs(d, indent):
+    if not d:
+        return '[]'
+    rows = []
+    for k, v in d.items():
+        rows.append('%s-- %s : %s\n%s(%s, .pat %s)' % (indent, comment(k), comment(v), indent, cp(k), cp(v)))
+    return '[\n' + ',\n'.join(rows) + ']'
+
+
+def final_env(t):
+    """the macro environment after `__init__`: the base macros updated with the macros of the tables, in order"""
+    env = dict(t['token'])
+    env.update(t['general'])
+    for _, _, m in t['order']:
+        if m:
+            env.update(m)
+    return env
 
 
 def render(t):
+    # Code points, not string literals: the kernel evaluates these tables (`decide +kernel` in Props/C14.lean), and
+    # string operations are slow there. The strings are shown in the comment above each entry. A Python dict
+    # literal keeps the last value of a repeated key at the position of the first — `read_tables` builds the
+    # tables with Python dicts, so what is written here is what Python has.
     out = ['-- GENERATED by tools/gen/c14_profiles.py from cssutils/profiles.py; do not edit.',
            '-- source sha256: %s' % t['sha'],
            'import CssVerif.Model.Profiles',
            'namespace CssVerif.Gen.C14',
-           'open CssVerif.Profiles CssVerif.Proto',
+           'open CssVerif.Profiles',
            '',
            '/-- `Profiles._TOKEN_MACROS` -/',
-           'def tokenMacros : List (String × String) :=\n   ' + pairs(t['token']),
+           'def tokenMacros : Dict Str := ' + macro_pairs(t['token'], '  '),
            '',
            '/-- `Profiles._MACROS` -/',
-           'def generalMacros : List (String × String) :=\n   ' + pairs(t['general']),
+           'def generalMacros : Dict Str := ' + macro_pairs(t['general'], '  '),
            '',
-           '/-- the list handed to `addProfiles` in `Profiles.__init__`: (name, properties, macros) -/',
-           'def builtinTable : List (String × List (String × String) × List (String × String)) := [']
-    ents = []
-    for n, p, m in t['order']:
-        ents.append('  (%s,\n   %s,\n   %s)' % (lean_str(n), pairs(p), pairs(m)))
-    out.append(',\n'.join(ents) + ']')
-    out += ['',
-            'def strDict (l : List (String × String)) : Dict Str := dnorm (l.map fun kv => (cps kv.1, cps kv.2))',
+           '/-- `_TOKEN_MACROS.copy()` updated with `_MACROS.copy()` -/',
+           'def base : Dict Str := dupdate tokenMacros generalMacros',
+           '',
+           '/-- the configuration of the driver and of the `builtin_*` theorems: the base macros, and a bound on the',
+           'expansion loop (Python has none; `C14.builtin_never_diverges`: 93 passes are enough for every value) -/',
+           'def cfg : Cfg := { base := base, fuel := 200 }',
+           '']
+    names = []
+    for i, (n, p, m) in enumerate(t['order']):
+        out += ['/-- %s -/' % comment(n),
+                'def profile%d : ProfileDef :=' % i,
+                '  { name := %s,' % cp(n),
+                '    props := ' + prop_pairs(p, '      ') + ',',
+                '    macros := some ' + macro_pairs(m, '      ') + ' }',
+                '']
+        names.append('profile%d' % i)
+    out += ['/-- the list handed to `addProfiles` in `Profiles.__init__`: (name, properties, macros) -/',
+            'def builtins : List ProfileDef := [' + ', '.join(names) + ']',
             '',
-            '/-- `_TOKEN_MACROS.copy()` updated with `_MACROS.copy()` -/',
-            'def base : Dict Str := dupdate (strDict tokenMacros) (strDict generalMacros)',
-            '',
-            'def builtins : List ProfileDef := builtinTable.map fun e =>',
-            '  { name := cps e.1,',
-            '    props := dnorm (e.2.1.map fun kv => (cps kv.1, PVal.pat (cps kv.2))),',
-            '    macros := some (strDict e.2.2) }',
+            '/-- the macro environment after `__init__`, computed by the translator with Python dicts; the theorem',
+            '`C14.builtin_env` (kernel) says that it is `bulkEnv base builtins` -/',
+            'def envLit : Dict Str := ' + macro_pairs(final_env(t), '  '),
             '',
             'end CssVerif.Gen.C14', '']
     return '\n'.join(out)
